@@ -54,3 +54,20 @@ type ghostFibSlice = []table.FibEntry
 //@   modifies dv.fib.names[*], dv.fib.prefixes[*], dv.fib.mark[*], all(ghostFibSlice), dv.pfx.routers[*]
 //@   ensures table.fibInv(dv.fib)
 //@   ensures forall(func(h uint64) bool { return dv.fib.hasPrefix(h) ==> dv.fib.mark[h] })
+
+// ---------------------------------------------------------------------------------------
+// advertSyncOnInterest (C19: installed routes follow the neighbour's face): whenever hearing a neighbour reports that its
+// face changed (RecvPing's second result), the function's fibDirty flag is set, so that fibUpdate runs. The environment
+// contract of RecvPing records "a face change was reported" in a ghost flag; only the loop invariant is claimed for this
+// function (it parses with a WireReader and spawns goroutines: the rest is outside what the contracts decide).
+// ---------------------------------------------------------------------------------------
+
+var ghostDvFaceChanged bool // some RecvPing call reported a changed face since the flag was last looked at
+
+//@ func (*github.com/named-data/ndnd/dv/table.NeighborState).RecvPing
+//@   trusted
+//@   modifies ghostDvFaceChanged, all(table.NeighborState)
+//@   ensures ghostDvFaceChanged == (old(ghostDvFaceChanged) || result1)
+
+//@ func (*Router).advertSyncOnInterest
+//@   loop 1 invariant [face-change-marks-fib-dirty] ghostDvFaceChanged == old(ghostDvFaceChanged) || fibDirty
